@@ -1,4 +1,5 @@
 import Vivid.Proofs.Gossip
+import Vivid.Proofs.GossipSpread
 
 /-!
 # C18 — gossip membership: what is proved
@@ -18,8 +19,15 @@ flight — duplicates and arbitrary delays included —, failure-detection ticks
   every record of it is older than `B`, every node that drops it after `B + T` never lists it
   again, and `C18_fd_drops_crashed`: a failure-detection tick after `B + T` drops it.
 
-Not proved (observed by the engine's settle phase instead): that under every fair schedule the
-views of *running* nodes become equal — the positive half of convergence (partial).
+Positive direction, in a phase where no address has two incarnations in play (`OnePerAddr` of
+the merged list):
+* `C18_recv_never_forgets`: handling a gossip loses no member;
+* `C18_recv_learns`: it adopts every entry of the view that is the sender's, already known, or
+  fresh by the sender's own record — so one exchange in each direction makes two nodes' member
+  sets equal on everything fresh, and a joined node spreads with every round.
+
+Not proved (observed by the engine's settle phase instead): that *every* fair schedule reaches
+the fixpoint, including phases with restarts in flight (partial).
 -/
 namespace Vivid.Gossip
 
@@ -87,6 +95,41 @@ theorem C18_no_readopt (n : Node) (now s : Nat) (view : List Mem) (c : Nat × Na
       · exact hs (ha ▸ hk)
       · rw [hid0, habs] at hk; cases hk
       · rw [hstale e0 h0 hid0] at hk; cases hk
+
+/-! ## Spreading (restart-free phase) -/
+
+theorem C18_recv_never_forgets (n : Node) (now s : Nat) (view : List Mem)
+    (h1 : OnePerAddr (merged n now s view))
+    (hself : ∀ e ∈ merged n now s view, e.addr = n.self.addr → e.id = n.self.id)
+    (i : Nat × Nat) (hi : has n.mem i = true) : has (handleGossip n now s view).mem i = true := by
+  rw [handle_has_of_clean n now s view h1 hself, hi]; rfl
+
+theorem C18_recv_learns (n : Node) (now s : Nat) (view : List Mem)
+    (h1 : OnePerAddr (merged n now s view))
+    (hself : ∀ e ∈ merged n now s view, e.addr = n.self.addr → e.id = n.self.id)
+    (e : Mem) (he : e ∈ view)
+    (hk : e.addr = n.self.addr ∨ e.addr = s ∨ has n.mem e.id = true ∨ stale n.T now e = false) :
+    has (handleGossip n now s view).mem e.id = true := by
+  rw [handle_has_of_clean n now s view h1 hself]
+  have : has (dropStale { n with mem := touch n.mem s now } now s view) e.id = true := by
+    apply (has_true_iff _ _).2
+    refine ⟨e, List.mem_filter.2 ⟨he, ?_⟩, rfl⟩
+    simp only [Bool.or_eq_true, decide_eq_true_eq, Bool.not_eq_true']
+    rw [touch_has]
+    rcases hk with h | h | h | h
+    · exact Or.inl (Or.inl (Or.inl h))
+    · exact Or.inl (Or.inl (Or.inr h))
+    · exact Or.inl (Or.inr h)
+    · exact Or.inr h
+  rw [this]; simp
+
+/-- Non-vacuity: node 0 hears from node 1 about node 2 (fresh): it ends up listing 0, 1 and 2. -/
+example :
+    let n : Node := { self := ⟨(0, 1), 0, 1, 1, 1000, .up, 1000⟩,
+                      mem := [⟨(0, 1), 0, 1, 1, 1000, .up, 1000⟩, ⟨(1, 1), 1, 2, 2, 1000, .up, 1000⟩],
+                      seeds := [0], T := 2000 }
+    (handleGossip n 1500 1 [⟨(1, 1), 1, 2, 2, 1000, .up, 1000⟩, ⟨(2, 1), 2, 2, 2, 1200, .up, 1400⟩]).mem.map (·.id)
+      = [(0, 1), (1, 1), (2, 1)] := by decide
 
 /-! ## Leader -/
 
